@@ -78,15 +78,15 @@ type gen struct {
 	readKeys   [][3]string
 	readKeySet map[string]bool
 	// signature and timestamp of the last read marker accepted per (blobber, client, allocation)
-	lastRM map[string]lastMarker
-	nonceSeq   int64
-	killOK     bool
-	t0         zcommon.Timestamp
-	round0     int64
-	w0         uint64   // storagesc wallet at trace start
-	l0         *big.Int // liabilities at trace start
-	prev       *storagesc.VerifStorageSnap
-	lastRes    world.Result
+	lastRM   map[string]lastMarker
+	nonceSeq int64
+	killOK   bool
+	t0       zcommon.Timestamp
+	round0   int64
+	w0       uint64   // storagesc wallet at trace start
+	l0       *big.Int // liabilities at trace start
+	prev     *storagesc.VerifStorageSnap
+	lastRes  world.Result
 }
 
 func init() { common.Register("storage", Run) }
